@@ -29,20 +29,33 @@ def sh(cmd, cwd=None, env=None, timeout=3000):
 
 
 def main():
-    wt, pid, slug = sys.argv[1:4]
-    only = sys.argv[4:] or ALL
+    argv = list(sys.argv[1:])
+    variant = None
+    if '--variant' in argv:
+        i = argv.index('--variant')
+        variant = argv[i + 1]
+        del argv[i:i + 2]
+    wt, pid, slug = argv[:3]
+    only = argv[3:] or ALL
     dest = os.path.join(VERIF, 'seeded', '%s-%s' % (pid, slug))
     os.makedirs(dest, exist_ok=True)
-    rc, diff = sh(['git', 'diff', 'HEAD', '--', 'odl'], cwd=wt)
+    if variant:
+        # round 2: <wt>/<variant>.diff, DEMO_<variant>.py
+        with open(os.path.join(wt, variant + '.diff')) as f:
+            diff = f.read()
+        demo_name = 'DEMO_%s.py' % variant
+    else:
+        rc, diff = sh(['git', 'diff', 'HEAD', '--', 'odl'], cwd=wt)
+        demo_name = 'DEMO.py'
     if not diff.strip():
         print('no change in', wt)
         return 2
     with open(os.path.join(dest, 'patch.diff'), 'w') as f:
         f.write(diff)
-    for name in ('DEMO.py', 'NOTES.md'):
+    for name, tgt in ((demo_name, 'DEMO.py'), ('NOTES.md', 'NOTES.md')):
         src = os.path.join(wt, name)
         if os.path.exists(src):
-            shutil.copy(src, os.path.join(dest, name))
+            shutil.copy(src, os.path.join(dest, tgt))
     scratch = tempfile.mkdtemp(prefix='odl-seed-eval-')
     os.rmdir(scratch)
     meta = {'property': pid, 'slug': slug}
